@@ -219,3 +219,23 @@ def boundary_cases(sizes: t.Sequence[int]) -> t.List[t.Dict[str, t.Any]]:
                 val: t.Any = ("x" * n) if isinstance(cur, str) else (b"\xa5" * n)
                 out.append({"m": _set_path(tmpl, path, val), "tail": b"", "field": f"{tname}:{'.'.join(map(str, path))}", "size": n})
     return out
+
+
+def magic_cases() -> t.List[t.Dict[str, t.Any]]:
+    """Every str/bytes field of every message kind set to every value of a list of values that code tends to
+    special-case ('*', '', NUL, 'dn', known OIDs, attribute names with options, normalisation-sensitive text ...)."""
+    out = []
+    text_vals = [v.decode("latin-1") for v in gens.MAGIC_OCTETS] + gens.ATTRIBUTE_NAMES + gens.NORMALISATION_SENSITIVE + gens.known_oids() + [""]
+    byte_vals = list(gens.MAGIC_OCTETS) + [b"", "e\u0301".encode(), b"\xc3", b"1.3.6.1.4.1.1466.20036"]
+    for tname, tmpl in _templates().items():
+        for path in _leaf_paths(tmpl):
+            cur = tmpl
+            for k in path:
+                cur = cur[k]
+            if isinstance(cur, str) and cur in _TAG_WORDS and isinstance(path[-1], int) and path[-1] == 0:
+                continue
+            for val in (text_vals if isinstance(cur, str) else byte_vals):
+                if isinstance(val, str) and path[:1] == ("controls",) and val in gens.KNOWN_OIDS:
+                    continue  # a generic control must not carry a library-known OID
+                out.append({"m": _set_path(tmpl, path, val), "tail": b"", "field": f"{tname}:{'.'.join(map(str, path))}", "size": repr(val)[:30]})
+    return out
